@@ -669,7 +669,10 @@ func groupsString(g map[string]map[viewKey]*viewVal) string {
 func (e *env) opRead(tgt int64) error {
 	g, err := e.readTarget(tgt)
 	if err != nil {
-		return err
+		// a target family that cannot be read back holds none of the aggregates C04 demands
+		e.c.Fail("target-read-error", fmt.Sprintf("interval %d: reading the target families fails: %s", tgt, strings.ReplaceAll(err.Error(), e.base, "<base>")))
+		e.c.Op(fmt.Sprintf("read %d", tgt), "read-error")
+		return nil
 	}
 	e.c.Op(fmt.Sprintf("read %d", tgt), groupsString(g))
 	e.checkAggregates(tgt, g)
@@ -1054,6 +1057,19 @@ func (e *env) finish() error {
 			return err
 		}
 	}
+	if e.multi || e.rng.Intn(3) == 0 {
+		// close and reopen every store (source days and targets), then every target family must
+		// still hold what it held
+		e.c.Branch("final-reopen-read")
+		if err := e.opReopen(); err != nil {
+			return err
+		}
+		for _, t := range e.tgts {
+			if err := e.opRead(t); err != nil {
+				return err
+			}
+		}
+	}
 	return nil
 }
 
@@ -1167,6 +1183,16 @@ func (e *env) storeCase() error {
 	// history
 	nops := 3 + rng.Intn(6)
 	flushed := false
+	if e.multi {
+		// every source family of every day gets data first
+		for _, h := range e.hours {
+			if err := e.opFlush(h, e.genFile(h)); err != nil {
+				return err
+			}
+		}
+		flushed = true
+		nops += 3
+	}
 	for i := 0; i < nops; i++ {
 		h := e.hours[rng.Intn(len(e.hours))]
 		switch k := rng.Intn(12); {
